@@ -1,4 +1,5 @@
 import HypatiaModel.Query
+import HypatiaModel.QueryModel
 import Driver.Sess
 namespace Driver.QueryS
 open Hyp Hyp.Query
@@ -153,6 +154,18 @@ def step (cat : Catalog) (toks : List String) : Catalog × String :=
       let spec := if wellTyped cat q then showRes (applyQ cat q) else "?"
       (cat, showRes (applyQ cat (optimize q)) ++ " ## " ++ spec)
     | _ => (cat, "bad-op")
+  | "optsafe" :: rest =>
+    -- the hypotheses of `c05_optimize_sound_partial`, evaluated on this tree and catalog
+    match parseQ (rest.length + 1) rest with
+    | some (q0, []) =>
+      let q := construct q0
+      let hz := hazards cat q
+      let name : Hazard → String := fun h => match h with | .d2 => "D2" | .d3 => "D3" | .d5 => "D5"
+      let out := if !wellTyped cat q then "illtyped"
+        else if OptSafe cat q then "safe"
+        else "unsafe:" ++ ",".intercalate (([Hazard.d2, .d3, .d5].filter (fun h => decide (h ∈ hz))).map name)
+      (cat, out ++ " ## ?")
+    | _ => (cat, "bad-op")
   | "optshape" :: rest =>
     match parseQ (rest.length + 1) rest with
     | some (q0, []) => let q := construct q0; (cat, showQ (optimize q) ++ " ## ?")
@@ -167,5 +180,46 @@ def step (cat : Catalog) (toks : List String) : Catalog × String :=
     | _ => (cat, "bad-op")
   | _ => (cat, "bad-op")
 
-def sess : Sess := { σ := Catalog, st := [], step := step }
+/-! The session also keeps the catalog of index *models* (C01/C02 states): every `doc` line is an
+`index_doc` on the model of that index.  `applye2e` evaluates the tree over the models (`applyQM`) and, as
+specification, over the specification tables (`applyQ`) – `c04_end_to_end` says the two agree. -/
+
+def setDocM (ix : IndexM) (d : Int) (v : Option (List Int)) : Option IndexM :=
+  match ix, v with
+  | .field s, none => some (.field (Field.indexDoc s d none))
+  | .field s, some [x] => some (.field (Field.indexDoc s d (some x)))
+  | .field _, _ => none
+  | .keyword s, v => some (.keyword (Keyword.indexDoc s d v))
+  | .text t, v => some (.text (AMap.set t d v))
+
+def stepM (st : Catalog × MCatalog) (toks : List String) : (Catalog × MCatalog) × String :=
+  let (cat, mcat) := st
+  match toks with
+  | ["cfg", "index", "field"] => ((cat ++ [.field []], mcat ++ [.field Field.init]), "ok")
+  | ["cfg", "index", "keyword"] => ((cat ++ [.keyword []], mcat ++ [.keyword Keyword.init]), "ok")
+  | ["cfg", "index", "text"] => ((cat ++ [.text []], mcat ++ [.text []]), "ok")
+  | "doc" :: i :: d :: vs =>
+    let (cat', out) := step cat toks
+    if out == "ok" then
+      match i.toNat?, d.toInt?, (if vs = ["none"] then some none else (intList? vs).map some) with
+      | some i, some d, some v =>
+        match mcat[i]? with
+        | some ix =>
+          match setDocM ix d v with
+          | some ix' => ((cat', mcat.set i ix'), "ok")
+          | none => ((cat, mcat), "bad-op")
+        | none => ((cat, mcat), "bad-op")
+      | _, _, _ => ((cat, mcat), "bad-op")
+    else ((cat, mcat), out)
+  | "applye2e" :: rest =>
+    match parseQ (rest.length + 1) rest with
+    | some (q0, []) =>
+      let q := construct q0
+      ((cat, mcat), showRes (applyQM mcat q) ++ " ## " ++ showRes (applyQ cat q))
+    | _ => ((cat, mcat), "bad-op")
+  | _ =>
+    let (cat', out) := step cat toks
+    ((cat', mcat), out)
+
+def sess : Sess := { σ := Catalog × MCatalog, st := ([], []), step := stepM }
 end Driver.QueryS
